@@ -262,12 +262,16 @@ func genC12Case(t *simrt.Tape) *c12case {
 	nf := t.Choose(K, 4)
 	fids := make([]uint64, nf)
 	fnames := make([]int, nf)
+	fsys := make([]int, nf) // how the system name relates to the name, see build
 	idBase := []uint64{1, 2, 5, 100}[t.Choose(K, 4)]
 	nextFID := idBase
 	for i := range fids {
 		fids[i] = nextFID
 		nextFID += uint64(1 + t.Choose(K, 3)) // strictly increasing, sparse
 		fnames[i] = t.Choose(K, len(c12Names))
+		if t.Bool(K, 35) {
+			fsys[i] = 1 + t.Choose(K, 5)
+		}
 	}
 	nl := 1 + t.Choose(K, 6)
 	type locT struct {
@@ -325,7 +329,18 @@ func genC12Case(t *simrt.Tape) *c12case {
 		}
 		for i := range fids {
 			n := c12Names[fnames[i]]
-			p.Function = append(p.Function, &profile.Function{ID: fids[i], Name: n, SystemName: n, Filename: "/src/old.cc", StartLine: 3})
+			sys := n
+			switch fsys[i] {
+			case 1: // demangled already, no system name kept
+				sys = ""
+			case 2, 3: // demangled already; several functions may share a mangled name
+				sys = []string{"_Z3fooi", "_ZN3foo3barEv"}[fsys[i]-2]
+			case 4: // nothing known about the function
+				n, sys = "", ""
+			case 5: // only the mangled name is known
+				n, sys = "", "_Z3fooi"
+			}
+			p.Function = append(p.Function, &profile.Function{ID: fids[i], Name: n, SystemName: sys, Filename: "/src/old.cc", StartLine: 3})
 		}
 		for i, l := range locs {
 			loc := &profile.Location{ID: uint64(i + 1), Address: l.addr}
@@ -383,6 +398,7 @@ type c12snap struct {
 	protect  map[uint64]bool   // mapping ids that already carried symbols
 	funcs    []*profile.Function
 	funcName []string
+	funcSys  []string
 }
 
 func lineTable(l *profile.Location) string {
@@ -437,6 +453,7 @@ func takeC12Snap(p *profile.Profile, force bool) *c12snap {
 	for _, f := range p.Function {
 		s.funcs = append(s.funcs, f)
 		s.funcName = append(s.funcName, f.Name)
+		s.funcSys = append(s.funcSys, f.SystemName)
 	}
 	return s
 }
@@ -462,6 +479,11 @@ func (s *c12snap) check(p *profile.Profile, force bool) *violation {
 	for i, f := range s.funcs {
 		if s.funcName[i] != "" && f.Name == "" {
 			return violf("name-emptied", "function %d: name %q (system name %q) replaced by the empty string", f.ID, s.funcName[i], f.SystemName)
+		}
+		if !force && s.funcName[i] != "" && s.funcName[i] != s.funcSys[i] && f.Name != s.funcName[i] {
+			// a name that is not the system name is a demangled one: without
+			// force nothing re-derives it
+			return violf("demangled-name-changed", "function %d: name %q (system name %q) became %q although no force was requested", f.ID, s.funcName[i], s.funcSys[i], f.Name)
 		}
 	}
 	ids := map[uint64]bool{}
